@@ -732,6 +732,19 @@ impl<'d> Session<'d> {
                                     );
                                 }
                             }
+                            // I7 on the OUTPUT: whatever the API says about Boxes, the
+                            // rendered definitions themselves must not contain one another by value
+                            if let Some(cyc) = &scan.by_value_cycle {
+                                if self.reported_problems.insert(format!("outcycle {}", cyc.join(">"))) {
+                                    self.violate(
+                                        "I7",
+                                        "unboxed-cycle-in-output".to_string(),
+                                        step,
+                                        format!("the rendered definitions contain one another by value: {}", cyc.join(" -> ")),
+                                        "every containment cycle in the output passes through a Box, Vec or map",
+                                    );
+                                }
+                            }
                         } else {
                             self.out.probe("post_fault_render.parsed");
                             if !scan.dup_items.is_empty() {
@@ -1603,6 +1616,36 @@ fn run_ops_inner(settings: &SettingsDesc, ops: &[Op], faults_mode: bool, attribu
                 // ----- promises -----
                 if let CallResult::Ok(Some(id)) = &res {
                     s.promise(id, step);
+                }
+                // ----- the id add_type_with_name returns is the type of THAT schema -----
+                // (the hint only names the result when the schema converts to a named
+                // type; a list or a scalar never comes back as some struct that happens
+                // to carry the hinted name)
+                if let (Op::AddType { schema, poison: None, .. }, CallResult::Ok(Some(id))) = (&src, &res) {
+                    if s.clean && !s.tainted {
+                        let plain = |keys: &[&str]| keys.iter().all(|k| schema.get(*k).is_none());
+                        let expected: Option<&[&str]> = match schema.get("type").and_then(|t| t.as_str()) {
+                            Some("array") if plain(&["$ref", "title", "oneOf", "anyOf", "allOf"]) => Some(&["vec(", "set(", "tuple(", "array("]),
+                            Some("boolean") | Some("integer") | Some("number") if plain(&["$ref", "title", "enum", "oneOf", "anyOf", "allOf"]) => Some(&["builtin("]),
+                            Some("string") if plain(&["$ref", "title", "enum", "format", "pattern", "maxLength", "minLength", "oneOf", "anyOf", "allOf"]) => Some(&["string"]),
+                            _ => None,
+                        };
+                        if let Some(kinds) = expected {
+                            if let Ok(snap) = take_snapshot(&s.ts, id) {
+                                if kinds.iter().any(|k| snap.details.starts_with(k)) {
+                                    s.out.probe("returned_type_kind_matches_schema");
+                                } else {
+                                    s.violate(
+                                        "I2",
+                                        format!("returned-type-is-not-the-schemas:{opkind}"),
+                                        step,
+                                        format!("{opkind} of a schema of type {} returned {} whose details are {}", schema.get("type").map(|t| t.to_string()).unwrap_or_default(), snap.name, snap.details.chars().take(80).collect::<String>()),
+                                        "the returned id denotes the type the delivered schema converts to",
+                                    );
+                                }
+                            }
+                        }
+                    }
                 }
                 // ----- render after every ingestion -----
                 if s.clean {
